@@ -95,6 +95,12 @@ def run(ctx):
             a = rs.randn(npol, n) if real else rs.randn(npol, n) + 1j * rs.randn(npol, n)
             return (a if npol == 2 else a[0]) * scale
         s, nz = fld(), (fld() if noisy else None)
+        narrow = None
+        if real and scale == 1.0 and it % 2 == 1:
+            # records held in fewer than 64 bits (16-bit ADC samples, 8-bit codes, single precision): the transform is still the double-precision DFT
+            narrow = [np.int16, np.uint8, np.float32, np.int8, bool, np.float16][(it // 2) % 6]
+            s = (np.round(s * 40) % 120).astype(narrow) if narrow is not bool else (s > 0)
+            nz = None if nz is None else np.round(nz * 40).astype(np.int16)
         if eqrows and npol == 2:
             s[1] = s[0]                                       # identical signal rows, different noise rows
         if n % gv.sps == 0 and (it % 2 == 0 or gv.sps % 2 == 1):
@@ -122,6 +128,10 @@ def run(ctx):
                 law("noise-transformed-like-signal", W.noise + o * n, type(obj)(obj.noise)("w").signal + o * n)
             law("Parseval", np.sum(np.abs(np.atleast_2d(W.signal)) ** 2, axis=-1), n * np.sum(np.abs(np.atleast_2d(obj.signal)) ** 2, axis=-1))
             law("'f'='w'", F.signal + o * n, W.signal + o * n)
+            Fs = obj("f", True)
+            law("'f'='w'", Fs.signal + o * n, Ws.signal + o * n)
+            if noisy:
+                law("'f'='w'", Fs.noise + o * n, Ws.noise + o * n)
             law("ifftshift(x('w',shift))=x('w')", np.fft.ifftshift(Ws.signal, axes=-1) + o * n, W.signal + o * n)
             law("fftshift(x('t',shift))=x('t')", np.fft.fftshift(Ts.signal, axes=-1) + o, obj("t").signal + o)
             law("x('w')=numpy.fft.fft", W.signal + o * n, np.fft.fft(obj.signal, axis=-1) + o * n)
@@ -150,7 +160,22 @@ def run(ctx):
                 tot = obj.signal + (obj.noise if noisy else 0)
                 law("power=mean|s+n|^2", np.atleast_1d(obj.power()), np.atleast_1d(np.mean(np.abs(tot) ** 2, axis=-1)))
                 law("power=mean|s+n|^2", np.atleast_1d(obj.power("signal")), np.atleast_1d(np.mean(np.abs(obj.signal) ** 2, axis=-1)))
-        ctx.case(("laws", n, type(obj).__name__, npol, noisy, real, it % 5, scale, eqrows))
+        ctx.case(("laws", n, type(obj).__name__, npol, noisy, real, it % 5, scale, eqrows, str(narrow)))
+    # objects whose array layout was changed through apply(): the transform follows the samples they hold now
+    for n in (48, 7):
+        rs = np.random.RandomState(n)
+        dual = optical_signal(rs.randn(2, n) + 1j * rs.randn(2, n), rs.randn(2, n) * 0.1)
+        xpol = dual.apply(lambda a: a[0])
+        single = optical_signal(rs.randn(n) + 1j * rs.randn(n))
+        both = single.apply(lambda a: np.array([a, 1j * a]))
+        for o_ in (xpol, both):
+            for dom_, sh_ in (("w", False), ("t", True), ("f", True)):
+                with deadline(30):
+                    r_ = o_(dom_, sh_)
+                f_ = np.fft.fft if dom_ != "t" else np.fft.ifft
+                g_ = (lambda v: v) if not sh_ else (np.fft.fftshift if dom_ != "t" else np.fft.ifftshift)
+                law("x('w')=numpy.fft.fft", np.asarray(r_.signal) + 10 * n, g_(f_(np.asarray(o_.signal), axis=-1), axes=-1) + 10 * n if sh_ else f_(np.asarray(o_.signal), axis=-1) + 10 * n)
+        ctx.case(("apply-layout", n))
     # the axis follows the sampling rate in force now: the same record length and the same samples per slot under another rate before
     for cfgs in ([dict(sps=16, R=1e9), dict(sps=16, R=2.5e9), dict(sps=16, R=1e9)], [dict(sps=8, R=10e9), dict(sps=8, fs=40e9), dict(sps=8, R=1.25e9)],
                  [dict(sps=5, R=1e9, N=7), dict(sps=5, R=3e9, N=7)]):
